@@ -47,7 +47,7 @@ CONFIGS["C02"] = {
         (["rw_try_write", "rw_read"], 18, 900, NORACE),
         # bug hunting only: three threads (two writers and a reader: the writer-or-readers hand-off); a lost wake-up shows
         # as sat within minutes, but unsat is out of reach of the solver at this size - no verdict is recorded as undecided
-        (["rw_write", "rw_write", "rw_read"], 20, 900, {"queries": ["deadlock"], "hunt": True}),
+        (["rw_write", "rw_write", "rw_read"], 18, 420, {"queries": ["deadlock"], "hunt": True}),
     ],
     "thorough": [
         (["rw_read", "rw_write"], 28, 3400, NORACE),
